@@ -91,9 +91,14 @@ func canAbut(kind string, a, b lexeme) bool {
 		return kind != "generic" || first == '\n' || first == '\r'
 	case "ws":
 		return !(first >= 0 && first <= ' ')
+	case "special":
+		return first != '.'
 	case "symbol":
 		if len(s1) > 1 {
 			return true
+		}
+		if kind == "expression-custom" && last == '.' && first == '.' {
+			return false
 		}
 		if strings.ContainsRune("<>!=", last) && strings.ContainsRune("<=>", first) {
 			return false
@@ -133,6 +138,7 @@ func c13pool(kind string) map[string][]string {
 	if kind == "expression-custom" {
 		p := c13pool("expression")
 		p["symbol"] = append([]string{"->", "=>", "--", "-="}, p["symbol"]...)
+		p["special"] = []string{".."} // registered with the Special type
 		return p
 	}
 	kws := []string{}
@@ -187,7 +193,7 @@ func c13rare(kind string) map[string][]string {
 	}
 }
 
-var c13classes = []string{"word", "keyword", "integer", "float", "quoted", "dquoted", "comment", "ws", "symbol"}
+var c13classes = []string{"word", "keyword", "integer", "float", "quoted", "dquoted", "comment", "ws", "symbol", "special"}
 
 // join inserts a whitespace lexeme wherever two neighbours could merge
 func c13join(kind string, seq []lexeme, r *rand.Rand) []lexeme {
@@ -392,7 +398,7 @@ func genC13(g *Gen) {
 					continue
 				}
 				txt := ps[r.Intn(len(ps))]
-				if r.Intn(2) == 0 && cls != "symbol" && cls != "keyword" && cls != "ws" {
+				if r.Intn(2) == 0 && cls != "symbol" && cls != "keyword" && cls != "ws" && cls != "special" {
 					txt = randomPayload(kind, cls, r)
 				}
 				seq = append(seq, lexeme{cls, txt})
